@@ -65,7 +65,7 @@ func (m *memoryStore) GetTokenResponse(ctx context.Context, sessionID string) (*
 	m.mu.Lock()
 	defer m.mu.Unlock()
 
-	s := m.sessions[sessionID]
+	s := m.get(sessionID)
 	if s == nil {
 		return nil, nil
 	}
@@ -92,7 +92,7 @@ func (m *memoryStore) GetAuthorizationState(ctx context.Context, sessionID strin
 	m.mu.Lock()
 	defer m.mu.Unlock()
 
-	s := m.sessions[sessionID]
+	s := m.get(sessionID)
 	if s == nil {
 		return nil, nil
 	}
@@ -109,7 +109,7 @@ func (m *memoryStore) ClearAuthorizationState(ctx context.Context, sessionID str
 	m.mu.Lock()
 	defer m.mu.Unlock()
 
-	if s := m.sessions[sessionID]; s != nil {
+	if s := m.get(sessionID); s != nil {
 		s.accessed = m.clock.Now()
 		s.authorizationState = nil
 	}
@@ -133,27 +133,38 @@ func (m *memoryStore) RemoveAllExpired(ctx context.Context) error {
 	log := m.log.Context(ctx)
 	log.Debug("removing expired sessions")
 
-	var (
-		earliestTimeAddedToKeep    = m.clock.Now().Add(-m.absoluteSessionTimeout)
-		earliestTimeIdleToKeep     = m.clock.Now().Add(-m.idleSessionTimeout)
-		shouldCheckAbsoluteTimeout = m.absoluteSessionTimeout > 0
-		shouldCheckIdleTimeout     = m.idleSessionTimeout > 0
-	)
+	now := m.clock.Now()
 
 	m.mu.Lock()
 	defer m.mu.Unlock()
 
 	for sessionID, s := range m.sessions {
-		expiredBasedOnTimeAdded := shouldCheckAbsoluteTimeout && s.added.Before(earliestTimeAddedToKeep)
-		expiredBasedOnIdleTime := shouldCheckIdleTimeout && s.accessed.Before(earliestTimeIdleToKeep)
-
-		if expiredBasedOnTimeAdded || expiredBasedOnIdleTime {
+		if m.expired(s, now) {
 			log.Debug("removing expired session", "session-id", sessionID)
 			delete(m.sessions, sessionID)
 		}
 	}
 
 	return nil
+}
+
+// expired tells whether the session has outlived the absolute or the idle session timeout.
+func (m *memoryStore) expired(s *session, now time.Time) bool {
+	expiredBasedOnTimeAdded := m.absoluteSessionTimeout > 0 && s.added.Before(now.Add(-m.absoluteSessionTimeout))
+	expiredBasedOnIdleTime := m.idleSessionTimeout > 0 && s.accessed.Before(now.Add(-m.idleSessionTimeout))
+	return expiredBasedOnTimeAdded || expiredBasedOnIdleTime
+}
+
+// get returns the session with the given ID unless there is none or it has timed out, in which
+// case it is removed: nothing in the service invokes RemoveAllExpired periodically, so the
+// timeouts are enforced whenever a session is looked up. The lock must be held.
+func (m *memoryStore) get(sessionID string) *session {
+	s := m.sessions[sessionID]
+	if s != nil && m.expired(s, m.clock.Now()) {
+		delete(m.sessions, sessionID)
+		return nil
+	}
+	return s
 }
 
 // set the given session with the given setter function and record the access time.
@@ -163,7 +174,7 @@ func (m *memoryStore) set(ctx context.Context, sessionID string, setter func(s *
 	m.mu.Lock()
 	defer m.mu.Unlock()
 
-	s := m.sessions[sessionID]
+	s := m.get(sessionID)
 	if s != nil {
 		s.accessed = m.clock.Now()
 		setter(s)
